@@ -8,7 +8,7 @@ summed, and `ocamlprof` annotates model.ml with the counts.  The report lists, p
 definition of the model, the points no request reached: regions of the model's behaviour that no
 generator enters, i.e. where a change of the code could not be seen by the correspondence run.
 
-usage: modelcov.py [--seed N] [--max-per-stream N] [--only C03,C12] [--keep]
+usage: modelcov.py [--seed N] [--max-per-stream N] [--only C03,C12] [--keep]   (--keep: add to the dumps of earlier runs)
 writes .cache/cov/model.prof.ml (annotated source) and .cache/cov/report.txt
 """
 import os, re, subprocess, sys, threading, json
@@ -45,7 +45,7 @@ def sh(cmd, cwd=None):
 
 def main():
     args = sys.argv[1:]
-    seed, cap, only = 1, 24000, None
+    seed, cap, only, keep = 1, 24000, None, False
     i = 0
     while i < len(args):
         if args[i] == "--seed":
@@ -54,6 +54,8 @@ def main():
             cap = int(args[i + 1]); i += 2
         elif args[i] == "--only":
             only = args[i + 1].split(","); i += 2
+        elif args[i] == "--keep":
+            keep = True; i += 1
         else:
             i += 1
     os.makedirs(COV, exist_ok=True)
@@ -62,7 +64,7 @@ def main():
     open(os.path.join(COV, "sumdump.ml"), "w").write(SUM_ML)
     sh("ocamlcp -P a -w -a model.mli model.ml main.ml -o drvcov && ocamlfind ocamlopt -w -a sumdump.ml -o sumdump", COV)
     for f in os.listdir(COV):
-        if f.endswith(".dump"):
+        if f.endswith(".dump") and not (keep and f != "all.dump"):
             os.remove(os.path.join(COV, f))
     dist = {}
     dumps = []
@@ -105,7 +107,9 @@ def main():
             ths.append(t)
         for t in ths:
             t.join()
-    dumps = [d for d in dumps if os.path.exists(d)]
+    if keep:
+        dumps = [os.path.join(COV, f) for f in os.listdir(COV) if f.endswith(".dump") and f != "all.dump"]
+    dumps = sorted(set(d for d in dumps if os.path.exists(d)))
     sh("./sumdump all.dump " + " ".join(dumps), COV)
     sh("ocamlprof -f all.dump model.ml > model.prof.ml", COV)
     report(dist)
